@@ -58,7 +58,7 @@ def run(tier):
         ev = marked[v["line"] - 1]
         rep.violation(v["clause"], v["site"], v["cond"], {"line": v["line"], "event": ev, "trace": trace})
     if out["nviol"] > len(out["viol"]):
-        rep.notes.append("%d violations in total, first 100 per shard kept" % out["nviol"])
+        rep.notes.append("%d violations in total, at most 40 per signature and shard kept" % out["nviol"])
     if a_common.mark_bad(marked, out):
         selftest(marked, wd)
     else:
